@@ -827,6 +827,10 @@ def copyprop(fn, known_locals, log):
             if nm in PURE_FREE:
                 return all(stable(a, seen) for a in args)
             cid = n.get("callee")
+            if n.get("this") is not None and not cid and n.get("dep") and not args and ir.short(nm) in ("begin", "end", "cbegin", "cend", "size", "length", "empty", "data", "c_str") \
+                    and (ir.unwrap(n["this"]).get("type") or "").startswith("const "):
+                # an observer called on an object of const (dependent) type inside a template pattern: only a const member can be meant
+                return stable(n["this"], seen)
             if n.get("this") is not None and cid and is_const_method_id(cid):
                 # a const method of a local/parameter object that this function never modifies reads only that object
                 # (standard containers / iterators); of *this or a member only while no member is written at all
@@ -838,6 +842,10 @@ def copyprop(fn, known_locals, log):
                     root = ir.unwrap(nxt)
                 local_root = isinstance(root, dict) and root.get("k") == "ref" and (root.get("decl", "").startswith("local:") or root.get("decl", "").startswith("param:"))
                 if local_root and cid.startswith("std::"):
+                    return stable(n["this"], seen) and all(stable(a, seen) for a in args)
+                # a const member of an object this function only knows through a reference / object of CONST type: the function
+                # cannot modify it through that name (a token, a declaration it was handed for reading)
+                if local_root and (root.get("type") or "").startswith("const ") and not (root.get("type") or "").rstrip().endswith("*"):
                     return stable(n["this"], seen) and all(stable(a, seen) for a in args)
                 if not all_fields_unstable and not written_f:
                     return stable(n["this"], seen) and all(stable(a, seen) for a in args)
@@ -867,6 +875,49 @@ def copyprop(fn, known_locals, log):
                     subst[nm] = decls[nm]["init"]
             finally:
                 written_l, written_p, written_f, all_fields_unstable = glob
+    # "name the operand": a local that is declared in one statement and used exactly once, as a direct argument of the call that is the
+    # very next statement, next to operands that are plain access paths - putting the initialiser back changes no evaluation order
+    order = {}
+    moved_back = set()  # their declarations go away: the initialiser is evaluated once, at its use
+    for bid, i, e in fn.roots():
+        order.setdefault(bid, []).append((i, e))
+    for nm in cand:
+        if nm in subst or nm in written_l:
+            continue
+        pos = uses = None
+        n_uses = 0
+        for bid, i, e in fn.roots():
+            x = e["expr"]
+            if x.get("k") == "decl" and len(x.get("vars", [])) == 1 and x["vars"][0]["name"] == nm:
+                pos = (bid, i)
+                continue
+            k0 = sum(1 for y in walk(x) if y.get("k") == "ref" and y.get("decl") == "local:" + nm)
+            if k0:
+                n_uses += k0
+                uses = (bid, i, e)
+        for b2 in fn.blocks:
+            c2 = fn.term(b2).get("cond")
+            if isinstance(c2, dict) and any(y.get("k") == "ref" and y.get("decl") == "local:" + nm for y in walk(c2)):
+                n_uses += 10
+        if pos is None or n_uses != 1 or uses[0] != pos[0]:
+            continue
+        idxs = [i for i, _ in order.get(pos[0], [])]
+        if idxs.index(uses[1]) != idxs.index(pos[1]) + 1:
+            continue
+        top = ir.unwrap(uses[2]["expr"])
+        if isinstance(top, dict) and top.get("k") == "return" and top.get("e") is not None:
+            top = ir.unwrap(top["e"])
+        if not (isinstance(top, dict) and top.get("k") in ("call", "construct")):
+            continue
+        ops = list(top.get("args", [])) + ([top["this"]] if top.get("this") is not None else [])
+        direct = [a for a in ops if isinstance(ir.unwrap(a), dict) and ir.unwrap(a).get("k") == "ref" and ir.unwrap(a).get("decl") == "local:" + nm]
+        if len(direct) != 1 or not all(_plain_path(a) for a in ops if a is not direct[0]):
+            continue
+        t0 = (decls[nm].get("type") or "")
+        if t0.rstrip().endswith("&") and not t0.startswith("const "):
+            continue
+        subst[nm] = decls[nm]["init"]
+        moved_back.add(nm)
     if not subst:
         return fn
 
@@ -887,6 +938,8 @@ def copyprop(fn, known_locals, log):
 
     d = copy.deepcopy(fn.d)
     for b in d["cfg"]["blocks"]:
+        b["elems"] = [e for e in b.get("elems", []) if not (isinstance(e.get("expr"), dict) and e["expr"].get("k") == "decl" and len(e["expr"].get("vars", [])) == 1
+                                                             and e["expr"]["vars"][0]["name"] in moved_back)]
         for e in b.get("elems", []):
             if e.get("expr") is not None:
                 x = e["expr"]
@@ -1018,6 +1071,138 @@ def canon_fields(prog, known_fields, log):
                     rw(t[key])
     for (k, n), o in sorted(ren.items()):
         log.append((k, "member:" + n, "renamed back to " + o))
+
+
+# ------------------------------------------------------------------------------------------- countdowns
+def countdown(fn, known_locals, log):
+    """a local counter that mirrors `limit - container.size()`: an unknown integral local R initialised from a stable expression E and
+    only ever decremented by one, each decrement sitting in a block with exactly one push_back / emplace_back on ONE local container C
+    that starts empty (and every append on C has its decrement). Then R == E - C.size() at every test, so `R == 0` is rewritten to
+    `E == C.size()` (and `R != 0` / `R > 0` / `0 < R` accordingly) and the decrements are dropped."""
+    if not fn.has_cfg or fn.file.startswith("/verif/"):
+        return fn
+    q = strip_targs(fn.qual if fn.kind != "lambda" else fn.id.split("::(lambda")[0].split("(")[0])
+    decls = {}
+    for bid, i, e in fn.roots():
+        x = e["expr"]
+        if x.get("k") == "decl":
+            for v in x.get("vars", []):
+                decls.setdefault(v["name"], []).append((bid, i, v))
+    for R, ds in decls.items():
+        if len(ds) != 1 or (q, R.split("@")[0]) in known_locals or R.startswith("__"):
+            continue
+        bid0, i0, v = ds[0]
+        if not v.get("bits") or v.get("init") is None or v.get("static") or v.get("ref") or (v.get("type") or "").rstrip().endswith("&"):
+            continue  # (a reference is another name of the limit itself, not a copy that counts down)
+        E = v["init"]
+        # writes and reads of R
+        decs, reads, bad = [], [], False
+        for bid, i, e in fn.roots():
+            x = e["expr"]
+            if (bid, i) == (bid0, i0):
+                continue
+            for y in walk(x):
+                if y.get("k") == "ref" and y.get("decl") == "local:" + R:
+                    reads.append((bid, i, e))
+        for b2 in fn.blocks:
+            c2 = fn.term(b2).get("cond")
+            if isinstance(c2, dict) and any(y.get("k") == "ref" and y.get("decl") == "local:" + R for y in walk(c2)):
+                reads.append((b2, -1, None))
+        dec_pos = set()
+        for bid, i, e in fn.roots():
+            x = ir.unwrap(e["expr"])
+            u = ir.as_unop(x) if isinstance(x, dict) else None
+            is_dec = bool(u and u[0] in ("--pre", "--post") and fmt(ir.unwrap(u[1])) == R) or \
+                (isinstance(x, dict) and x.get("k") == "bin" and x.get("op") == "-=" and fmt(ir.unwrap(x["l"])) == R and fmt(ir.unwrap(x["r"])) == "1")
+            if is_dec:
+                decs.append((bid, i, e))
+                dec_pos.add((bid, i))
+        if not decs:
+            continue
+        # every other mention of R is a comparison with 0
+        cmp_sites = []
+        for bid, i, e in reads:
+            if (bid, i) in dec_pos:
+                continue
+            trees = [e["expr"]] if e is not None else [fn.term(bid).get("cond")]
+            for t in trees:
+                for y in walk(t):
+                    if y.get("k") == "ref" and y.get("decl") == "local:" + R:
+                        pass
+                ok_here = False
+                for y in walk(t):
+                    bo = ir.as_binop(y) if isinstance(y, dict) else None
+                    if bo and bo[0] in ("==", "!=", ">", "<") and {fmt(ir.unwrap(bo[1])), fmt(ir.unwrap(bo[2]))} == {R, "0"}:
+                        ok_here = True
+                n_refs = sum(1 for y in walk(t) if isinstance(y, dict) and y.get("k") == "ref" and y.get("decl") == "local:" + R)
+                n_cmp = sum(1 for y in walk(t) if isinstance(y, dict) and ir.as_binop(y) and ir.as_binop(y)[0] in ("==", "!=", ">", "<")
+                            and {fmt(ir.unwrap(ir.as_binop(y)[1])), fmt(ir.unwrap(ir.as_binop(y)[2]))} == {R, "0"})
+                if not ok_here or n_refs != n_cmp:
+                    bad = True
+        if bad:
+            continue
+        # the container: one local with an append in every decrement block, and no append elsewhere
+        cont = None
+        for bid, i, e in decs:
+            apps = [(fmt(ir.unwrap(n.get("this"))), n) for j, e2 in enumerate(fn.elems(bid)) if e2.get("expr") is not None for n in walk(e2["expr"])
+                    if n.get("k") == "call" and ir.short(n.get("name") or "") in ("push_back", "emplace_back") and n.get("this") is not None]
+            if len(apps) != 1:
+                cont = None
+                break
+            if cont is not None and cont != apps[0][0]:
+                cont = None
+                break
+            cont = apps[0][0]
+        if cont is None or cont not in decls or len(decls[cont]) != 1:
+            continue
+        cinit = decls[cont][0][2].get("init")
+        cu = ir.unwrap(cinit) if cinit is not None else None
+        if cu is not None and not (isinstance(cu, dict) and cu.get("k") == "construct" and not [a for a in cu.get("args", []) if not (isinstance(a, dict) and a.get("k") == "defarg")]):
+            continue  # the container does not start empty
+        from . import cfg as _cfg
+        all_apps = [(bid, i) for bid, i, e in fn.roots() for n in walk(e["expr"]) if n.get("k") == "call" and n.get("this") is not None and fmt(ir.unwrap(n["this"])) == cont
+                    and ir.short(n.get("name") or "") in ("push_back", "emplace_back", "insert", "emplace", "pop_back", "erase", "clear", "resize", "assign")
+                    and not _cfg.contradictory_block(fn, bid)]  # (an append in dead code - reachable only under B and !B - does not count)
+        if {b for b, _ in all_apps} != {b for b, _, _ in decs} or len(all_apps) != len(decs):
+            continue
+        # rewrite
+        size_call = {"k": "call", "name": "std::vector::size", "callee": "std::vector::size() const", "args": [], "this": {"k": "ref", "decl": "local:" + cont, "type": decls[cont][0][2].get("type", "")}, "type": "std::size_t"}
+
+        def rw(n):
+            if isinstance(n, list):
+                return [rw(y) for y in n]
+            if not isinstance(n, dict):
+                return n
+            bo = ir.as_binop(n)
+            if bo and bo[0] in ("==", "!=", ">", "<") and {fmt(ir.unwrap(bo[1])), fmt(ir.unwrap(bo[2]))} == {R, "0"}:
+                r_left = fmt(ir.unwrap(bo[1])) == R
+                op = bo[0]
+                if op in ("==", "!="):
+                    return {"k": "bin", "op": op, "l": copy.deepcopy(E), "r": copy.deepcopy(size_call), "type": "bool", "ln": n.get("ln")}
+                if (op == ">" and r_left) or (op == "<" and not r_left):  # R > 0  <=>  size < E
+                    return {"k": "bin", "op": "<", "l": copy.deepcopy(size_call), "r": copy.deepcopy(E), "type": "bool", "ln": n.get("ln")}
+                return {"k": "lit", "t": "bool", "v": False}  # R < 0 on an unsigned / counted-down value never holds
+            return {kk: (rw(vv) if isinstance(vv, (dict, list)) else vv) for kk, vv in n.items()}
+
+        d = copy.deepcopy(fn.d)
+        for b in d["cfg"]["blocks"]:
+            keep = []
+            for j, e in enumerate(b.get("elems", [])):
+                if (b["id"], j) in dec_pos:
+                    continue
+                if e.get("expr") is not None:
+                    e["expr"] = rw(e["expr"])
+                keep.append(e)
+            b["elems"] = keep
+            t = b.get("term", {})
+            for key in ("cond", "full"):
+                if isinstance(t.get(key), dict):
+                    t[key] = rw(t[key])
+        log.append((fn.id, "local:" + R, "countdown rewritten to %s - %s.size()" % (fmt(E)[:40], cont)))
+        new = Fn(d, fn.unit)
+        new.inlined = getattr(fn, "inlined", False)
+        return new
+    return fn
 
 
 # ------------------------------------------------------------------------------------------- helper objects
@@ -1176,6 +1361,7 @@ def normalise(prog, known=None):
         if g is not f and kf is not None:
             g = sroa(prog, inl, g, kf, inl.log)
         if known_locals is not None:
+            g = countdown(g, known_locals, inl.log)
             g = copyprop(g, known_locals, inl.log)
         if g is not f:
             prog.fns[fid] = g
